@@ -1,6 +1,7 @@
 """C04 - deterministic simulation solves the model's rate equations.
 
-(M) spec/Ode.tla: four closed-form solution families (F1 rates depending on t only -> polynomials; F2
+(M) spec/Ode.tla: five closed-form solution families (F5: F2 with a replicating first species, growing solutions on
+    long-gap grids that need more than the integrator's first step budget; F1 rates depending on t only -> polynomials; F2
     first-order feed-forward networks with pairwise distinct exit rates -> sums of exponentials by forward
     substitution; F3 second-order decay with equal amounts -> rational functions; F4 production at rate
     k exp(-c t)), delayed reactants/products counted as if the delay were zero.  TLC checks the CERTIFICATE
@@ -211,7 +212,7 @@ def run(tier):
            "max_relative_deviation": max_rel, "tolerance": RTOL, "paths": ["py_simulate_model(stochastic=False)", "DeterministicSimulator.py_simulate"],
            "certificates_checked_states": rg.distinct, "tlc_wall_s": round(t_tlc, 1), "checker_cmd": rg.cmd}
     common.write_evidence(PROP, tier, cov, time.time() - t0, len(v.alarms) + sum(v.known_hit.values()),
-                          assumptions=["A-ODE: only the four closed-form families (and disjoint unions of two members) are decided; Hill laws enter with a constant regulator, state-dependent general rates through C01/C02/C03",
+                          assumptions=["A-ODE: only the five closed-form families (F5: growing first-order networks on long-gap grids) (and disjoint unions of two members) are decided; Hill laws enter with a constant regulator, state-dependent general rates through C01/C02/C03",
                                        "tolerance 2e-5 (1 + |x|): the integrator runs at rtol = atol = 1.49e-8",
                                        "exp(q) atoms of the exact rows are evaluated with one math.exp each"])
     return rc
